@@ -475,6 +475,33 @@ def r12_7(prog: Program, rep: Report, ct):
             rep.check(not mut, "R12.7", f.qualname, f.loc, "does not mutate its argument", f"mutates its argument: {mut[:2]}")
 
 
+_MUTATED_PARAMS: dict = {}
+
+
+def mutated_params(prog: Program, g) -> set:
+    """Names of the parameters of `g` that `g` itself updates in place (item store / delete, mutator call, attribute store)."""
+    key = (id(prog), g.qualname)
+    if key in _MUTATED_PARAMS:
+        return _MUTATED_PARAMS[key]
+    out = set()
+    try:
+        gps = P.paths_of(prog, g)
+    except AnalysisError:
+        gps = []
+    params = {("param", n): n for n in g.params}
+    for pth in gps:
+        for e in pth.events:
+            if e[0] in ("setitem", "setattr") and e[1] in params:
+                out.add(params[e[1]])
+            if e[0] == "delete" and e[1][0] == "sub" and e[1][1] in params:
+                out.add(params[e[1][1]])
+        for c in pth.calls():
+            if c[1][0] == "attr" and c[1][2] in E.MUTATORS and c[1][1] in params:
+                out.add(params[c[1][1]])
+    _MUTATED_PARAMS[key] = out
+    return out
+
+
 def r12_8(prog: Program, rep: Report):
     """Results of memoised helpers (type hints, signatures, static_order, args) are not mutated by their consumers."""
     memo = prog.memoised_functions()
@@ -507,6 +534,16 @@ def r12_8(prog: Program, rep: Report):
                     base = c[1][1]
                     if cached(base):
                         bad.append(f".{c[1][2]}() on {'a component of ' if base[0] != 'call' else ''}the cached result of {cached(base)}")
+            # ... or handed to a package function that mutates that parameter (`_bind_parameters(cached_hints(...), alias)`)
+            for c in p.calls():
+                gq = T.refname(c[1])
+                g = prog.functions.get(gq) if gq else None
+                if g is None or g is f:
+                    continue
+                mp = mutated_params(prog, g)
+                for i, a in enumerate(c[2]):
+                    if i < len(g.params) and g.params[i] in mp and cached(a):
+                        bad.append(f"{g.name}() mutates its parameter `{g.params[i]}`, which is the cached result of {cached(a)}")
             # `x = cached(); x -= other`: an augmented assignment updates a mutable container in place
             for e in p.events:
                 if e[0] == "assign" and e[2][0] == "binop" and e[2][1].endswith("=") and e[2][1] not in ("==", "!=", "<=", ">="):
